@@ -80,7 +80,20 @@ def gen_problem(rng, t):
     if rng.random() < 0.5 and p.family == "rects":
         p.circprops.append(dict(name="cfloat", V=0.0, q=rng.choice([1e-9, -5e-10, 0.0]), type=0))
         p.add_node(0.25, 0.25, cond=len(p.circprops) - 1)
+    add_external_region(p, rng)
     return p
+
+
+def add_external_region(p, rng):
+    """axisymmetric problems: every third one has an EXTERNAL region (Kelvin-transformed exterior: [extZo] [extRo] [extRi] and a block label
+    flagged external).  The whole assembly of such a problem is compared with the Lean model; the SI oracle of stage P does not re-derive the
+    transformation and skips it."""
+    p.has_ext = False
+    if p.ptype == "axi" and len(p.labels) > 1 and rng.random() < 0.34:
+        W = max(n["x"] for n in p.nodes)
+        p.ext = (rng.choice([0.0, 1.5]), rng.choice([2.0 * W, 20.0]), rng.choice([W, 8.0]))
+        rng.choice(p.labels[1:])["ext"] = 1
+        p.has_ext = True
 
 
 def main(argv):
@@ -89,7 +102,7 @@ def main(argv):
                       "permittivity; volume / surface / point charges; BC types 0-2; conductors of both kinds incl. floating "
                       "conductors adjacent to prescribed nodes) meshed by the real fmesher and solved by the real esolver; "
                       "non-trivial = at least one free node and one source or non-zero prescribed value; distinct by problem signature")
-    ck.assumptions += ["the external-region (Kelvin) kludge is modelled in Lean but not generated",
+    ck.assumptions += ["problems with an external (Kelvin-transformed) region are decided by the bit-for-bit assembly tie and the hook residual; the SI oracle does not re-derive the transformation",
                        "solver accuracy is observed (hook log, oracle residual at Precision 1e-10), not proved",
                        "the oracle assigns boundary conditions geometrically (1e-9 relative tolerance)"]
     ck.run_stage_a()
@@ -167,6 +180,9 @@ def main(argv):
                 ok_perm = len(set(idx.tolist())) == len(A) and float(dist.max()) <= 1e-9 * max(1.0, float(np.abs(A).max()))
             if not ok_perm:
                 ck.violation("renumbering", "the nodes of the solution file are not a permutation of the mesh nodes", dict(files=run.files()))
+                continue
+            if getattr(p, "has_ext", False):
+                stats["external_region_problems"] = stats.get("external_region_problems", 0) + 1
                 continue
             mesh = fem_oracle.Mesh(p, sol)
             if (mesh.area <= 0).any():
